@@ -386,3 +386,162 @@ def fifo_validate(ctx, g, pid='C03'):
     ctx.note('source_tie_fifo', {'scripts': len(scripts), 'translator_ok': g['ok'],
                                  'generated_vs_python_mismatch': bad})
     return not (failed or bad)
+
+
+# =============================================================================
+# dawgie/pl/farm.py eligibility tests and queue order  (C11)
+# =============================================================================
+FARM_PRE = '''
+Definition effname (e : FarmGen.eff) : nat :=
+  match e with FarmGen.ESendAbort => 0 | FarmGen.ESendProceed => 1 | FarmGen.EClose => 2 | FarmGen.ERegister => 3 end.
+Definition mk (j t : nat) (r : Z) : msg := {| m_job := j; m_tgt := t; m_rid := r; m_fac := Task |}.
+Definition cpu_of (tab : list (nat * nat * Z)) (m : msg) : Z :=
+  match find (fun e => andb (Nat.eqb (fst (fst e)) (m_job m)) (Nat.eqb (snd (fst e)) (m_tgt m))) tab with
+  | Some e => snd e | None => 0%Z end.
+Definition csort (tab : list (nat * nat * Z)) (l : list msg) :=
+  map (fun m => (m_job m, m_tgt m, m_rid m)) (FarmGen.cluster_sort (cpu_of tab) l).
+'''
+EFF = {0: 'abort', 1: 'proceed', 2: 'close', 3: 'register'}
+
+
+def farm_generate(ctx):
+    return _generate(ctx, 'farm2coq.py', 'Gen/FarmGen.v', 'dawgie.pl.farm functions',
+                     'Python/dawgie/pl/farm.py',
+                     ['Hand._reg', 'Hand._process', 'Hand.__init__', 'something_to_do', '_cluster_sort'])
+
+
+def farm_units(ctx):
+    rng = random.Random('%s:gen-farm' % ctx.seed)
+    units = []
+    for rev_ok in (True, False):
+        units.append({'f': 'reg', 'rev_ok': rev_ok})
+        for active in (True, False):
+            units.append({'f': 'poll', 'rev_ok': rev_ok, 'active': active})
+    for active, crew, agency in itertools.product((True, False), repeat=3):
+        units.append({'f': 'something_to_do', 'active': active, 'crew': crew, 'agency': agency})
+    # queue order: every list of <= 3 messages over run ids {1,2} x two units, without
+    # and with insights; then random longer ones
+    pool = [(j, t, r) for j in (0, 1) for t in (0, 1) for r in (1, 2)]
+    lists = [list(c) for k in (1, 2, 3) for c in itertools.product(pool, repeat=k)]
+    if ctx.quick:
+        lists = [l for i, l in enumerate(lists) if i % 3 == 0]
+    for l in lists:
+        units.append({'f': 'cluster_sort', 'msgs': [list(m) for m in l], 'insights': []})
+    for _ in range(ctx.n(150, 1000)):
+        msgs = [[rng.randint(0, 3), rng.randint(0, 2), rng.choice([0, 1, 2, 3, 7])] for _ in range(rng.randint(2, 7))]
+        tab = []
+        if rng.random() < 0.6:
+            for j, t in {(m[0], m[1]) for m in msgs}:
+                if rng.random() < 0.7:
+                    tab.append([j, t, rng.randint(0, 4)])
+        units.append({'f': 'cluster_sort', 'msgs': msgs, 'insights': tab})
+    return units
+
+
+def _farm_payload(u):
+    if u['f'] != 'cluster_sort':
+        return u
+    return dict(u, insights=[['%s.j%d' % ('__all__' if t == 0 else 't%d' % t, j), c] for j, t, c in u['insights']])
+
+
+def _farm_expr(u):
+    def b(x):
+        return 'true' if x else 'false'
+    f = u['f']
+    if f == 'reg':
+        return 'map effname (FarmGen.hand_reg %s)' % b(u['rev_ok'])
+    if f == 'poll':
+        return 'map effname (FarmGen.hand_status %s %s)' % (b(u['rev_ok']), b(u['active']))
+    if f == 'something_to_do':
+        return 'FarmGen.something_to_do %s %s' % (b(u['crew']), b(u['active']))
+    tab = '[' + ';'.join('(%d,%d,(%d)%%Z)' % tuple(e) for e in u['insights']) + ']'
+    ms = '[' + ';'.join('mk %d %d (%d)%%Z' % tuple(m) for m in u['msgs']) + ']'
+    return 'csort %s %s' % (tab, ms)
+
+
+def _farm_canon_model(u, v):
+    if u['f'] in ('reg', 'poll'):
+        return ('ok', [EFF[x] for x in v])
+    if u['f'] == 'something_to_do':
+        return ('ok', v)
+    return ('ok', [list(x) for x in v])
+
+
+def _farm_canon_impl(u, r):
+    if 'exc' in r:
+        return ('exc', r['exc'])
+    return ('ok', r['r'])
+
+
+def _farm_oracle(units, impl):
+    '''C11 on the python functions: a stale revision is refused and never
+    registered; nothing but abort answers while inactive; the queue order is
+    a stable sort by run id when the insights do not separate the messages'''
+    hits = []
+    for u, r in zip(units, impl):
+        if 'exc' in r:
+            hits.append(('farm-function-raises', {'f': u['f']}, 'farm %s raises %s on %r' % (u['f'], r['exc'], u), u))
+            continue
+        o = r['r']
+        if u['f'] == 'reg':
+            want = ['register'] if u['rev_ok'] else ['abort', 'close']
+            if o != want:
+                hits.append(('registration-eligibility', {}, 'Hand._reg(rev_ok=%s) does %r, expected %r'
+                             % (u['rev_ok'], o, want), u))
+        elif u['f'] == 'poll':
+            want = ['proceed', 'close'] if (u['rev_ok'] and u['active']) else ['abort', 'close']
+            if o != want:
+                hits.append(('poll-eligibility', {}, 'status poll (rev_ok=%s, active=%s) answers %r, expected %r'
+                             % (u['rev_ok'], u['active'], o, want), u))
+        elif u['f'] == 'something_to_do':
+            if o is not u['active']:
+                hits.append(('dispatch-guard', {}, 'something_to_do(active=%s, crew=%s, agency=%s) = %r'
+                             % (u['active'], u['crew'], u['agency'], o), u))
+        elif u['f'] == 'cluster_sort' and not u['insights']:
+            want = sorted(u['msgs'], key=lambda m: m[2])
+            if o != want:
+                hits.append(('queue-order', {}, '_cluster_sort(%r) = %r, stable order by run id is %r'
+                             % (u['msgs'], o, want), u))
+    return hits
+
+
+def farm_validate(ctx, g, pid='C11'):
+    units = farm_units(ctx)
+    impl = ctx.harness('drive_gen.py', {'farm': [_farm_payload(u) for u in units]})['farm']
+    ci = [_farm_canon_impl(u, r) for u, r in zip(units, impl)]
+    failed = (not g['ok']) or proofs_failed(ctx)
+    found = False
+    if failed:
+        for kind, fields, what, u in _farm_oracle(units, impl)[:3]:
+            found = True
+            ctx.violation(kind, fields, '%s: %s' % (pid, what),
+                          {'source': 'oracle (python functions)', 'unit': u,
+                           'theorem': 'C11_stale_refused / C11_inactive / C11_conservation'})
+    bad = None
+    if g['ok']:
+        try:
+            vals = ctx.coq_eval(['DV.Model.Sched', 'DV.Gen.FarmGen'], [_farm_expr(u) for u in units],
+                                preamble=FARM_PRE, z_scope=False)
+            for u, a, v in zip(units, ci, vals):
+                b = _farm_canon_model(u, v)
+                if a != b:
+                    bad = {'unit': u, 'python': repr(a), 'generated': repr(b)}
+                    break
+        except core.CoqEvalError as e:
+            bad = {'unit': None, 'python': '', 'generated': 'Gen/FarmGen.v does not evaluate: %s' % (e.args[1][-600:],)}
+        if bad and not found:
+            ctx.broken('translator validation: generated farm function disagrees with python',
+                       repr(bad), {'source': 'translator-validation', 'unit': bad['unit'],
+                                   'expected': bad['generated'], 'observed': bad['python']})
+    elif not found:
+        ctx.broken('translator farm2coq.py refuses dawgie/pl/farm.py', g['msg'], {'source': 'translator'})
+    if failed and not found and g['ok'] and not bad:
+        ctx.broken('source tie: Gen/FarmGen.v (farm.py of today) is no longer proved equal to the farm part '
+                   'of Model/Sched.v', 'the python functions still satisfy the oracle on %d units' % len(units),
+                   {'source': 'proof', 'theorem': 'Proofs/FarmGenEq.v'})
+    nt = [('farm', repr(u)) for u in units
+          if u['f'] != 'cluster_sort' or len({m[2] for m in u['msgs']}) < len(u['msgs'])]
+    ctx.count(evaluations=len(units), nontrivial_keys=nt)
+    ctx.note('source_tie_farm', {'units': len(units), 'translator_ok': g['ok'],
+                                 'generated_vs_python_mismatch': bad})
+    return not (failed or bad)
